@@ -571,7 +571,7 @@ func Run(t *testing.T, prop string, classes ...Runner) {
 	flushMu.Lock()
 	flushProp = prop
 	flushMonitor = t.Name()
-	flushed = nil
+	// (flushed is kept: several TestVerif* functions of one unit share a report)
 	flushMu.Unlock()
 
 	if e.replay != "" {
